@@ -70,8 +70,20 @@ func runC14(c *fw.Ctx) {
 			text, must, why := c14Mutate(r, base)
 			c14CheckText(c, text, must, why, true)
 		case 6, 7:
-			base, _ := c14ValidText(r)
+			base, gen := c14ValidText(r)
 			c14CheckText(c, base, "accept", "canonical text of a generated entry", true)
+			// R5: the canonical text of a recordable entry parses back to that entry
+			c.Guard(c14Case{Kind: "text", Hex: hex.EncodeToString([]byte(base)), Why: "canonical text of a generated entry"}, func() {
+				id := githash.Hash(bytes.Repeat([]byte{0x11}, 20))
+				if e, err := rsl.ParseEntryText(id, base); err == nil {
+					want, got := c14Fields(gen), c14Fields(e)
+					delete(want, "id")
+					delete(got, "id")
+					if !reflect.DeepEqual(want, got) {
+						c.Violation("canonical-text-loses-fields", map[string]string{"type": fmt.Sprint(want["type"])}, fmt.Sprintf("entry %v, written as canonical text and parsed, gives %v", want, got), c14Case{Kind: "text", Hex: hex.EncodeToString([]byte(base)), Entry: want})
+					}
+				}
+			})
 		case 8:
 			c14CheckText(c, c14HeaderGarbage(r), "", "", false)
 		default:
@@ -114,7 +126,7 @@ func c14Message(r *rand.Rand) string {
 	case 5:
 		return "skip: false\nnumber: 99\nentryID: " + strings.Repeat("a", 40)
 	case 6:
-		return "\n\n  leading and trailing  \n\n"
+		return []string{"\n\n  leading and trailing  \n\n", "\n", " ", "\r\n", "\t", "  \n  "}[r.IntN(6)]
 	case 7:
 		return "-----END MESSAGE-----"
 	default:
